@@ -74,3 +74,77 @@ def diff_server(r, oracle_lines):
 def driver_query(exe, lines):
     p = subprocess.run([exe], input=("\n".join(lines) + "\n").encode(), stdout=subprocess.PIPE, stderr=subprocess.PIPE, timeout=600)
     return p.stdout.decode("utf-8", "replace").splitlines()
+
+
+# --------------------------------------------------------------------------
+# Tier A: tables read from the current source tree and compared with the model's tables
+# --------------------------------------------------------------------------
+
+def _snake(name):
+    return re.sub(r"(?<!^)([A-Z])", r"_\1", name).lower()
+
+
+def source_query_tables():
+    """(write kinds of utilities.rs required_role, kinds accepted by user_db.rs t_exec,
+    kinds audited by t_exec_mut) parsed from the server source"""
+    src = os.path.join(vlib.server_src(), "agdb_server", "src")
+    util = open(os.path.join(src, "utilities.rs")).read()
+    m = re.search(r"fn required_role\(.*?\n}\n", util, re.S)
+    write = set(_snake(x) for x in re.findall(r"QueryType::(\w+)\(_\)", m.group(0).split("return DbUserRole::Write")[0])) if m else None
+    udb = open(os.path.join(src, "db_pool", "user_db.rs")).read()
+    m = re.search(r"fn t_exec\(.*?\n}\n", udb, re.S)
+    read = set(_snake(x) for x in re.findall(r"QueryType::(\w+)\(", m.group(0))) if m else None
+    m = re.search(r"fn t_exec_mut\(.*?\n}\n", udb, re.S)
+    audited = None
+    if m:
+        audited = set()
+        for blk in re.split(r"(?=QueryType::\w+\(q\) => )", m.group(0))[1:]:
+            k = re.match(r"QueryType::(\w+)\(q\)", blk).group(1)
+            if "do_audit = true" in blk.split("};")[0]:
+                audited.add(_snake(k))
+    return write, read, audited
+
+
+def documented_matrix():
+    """endpoint -> documented permission, from the table of the server documentation"""
+    p = os.path.join(vlib.server_src(), "agdb_web", "content", "docs", "03.references", "02.server.md")
+    res = {}
+    if not os.path.exists(p):
+        return None
+    for l in open(p, errors="replace"):
+        m = re.match(r"^\|\s*/api/v1/db/\\\{owner\\\}/\\\{db\\\}/(\S+)\s*\|\s*(\w+)\s*\|", l)
+        if m:
+            res[m.group(1).replace("/", "_")] = m.group(2)
+    return res
+
+
+def tier_a(exe):
+    """disagreement dicts for every table of the model that no longer matches the source tree"""
+    out = []
+    kinds = driver_query(exe, ["server kinds"])
+    model = {}
+    for name, w, r, a in re.findall(r"\((\w+) (write|read) (exec|noexec) (audited|silent)\)", " ".join(kinds)):
+        model[name] = (w == "write", r == "exec", a == "audited")
+    write, read, audited = source_query_tables()
+    if write is None or read is None or audited is None:
+        out.append(dict(what="tier A: could not parse required_role / t_exec / t_exec_mut from the server source"))
+    else:
+        for k, (w, r, a) in sorted(model.items()):
+            src = (k in write, k in read, k in audited)
+            if src != (w, r, a):
+                out.append(dict(what="tier A: query kind table differs", case=k, model="write=%s exec=%s audited=%s" % (w, r, a),
+                                impl="write=%s exec=%s audited=%s" % src))
+        for k in sorted((write | read | audited) - set(model)):
+            out.append(dict(what="tier A: query kind unknown to the model", case=k, model="-", impl="present"))
+    doc = documented_matrix()
+    mdoc = dict(re.findall(r"\((\w+) (\w+)\)", " ".join(driver_query(exe, ["server docperm"]))))
+    if not doc:
+        out.append(dict(what="tier A: documented permission table not found in the server documentation"))
+    else:
+        for k in sorted(set(doc) | set(mdoc)):
+            if k == "list":
+                continue                       # /db/list takes no database; any authenticated user
+            if doc.get(k) != mdoc.get(k):
+                out.append(dict(what="tier A: documented permission differs from the model's doc_perm", case=k,
+                                model=str(mdoc.get(k)), impl=str(doc.get(k))))
+    return out
